@@ -318,3 +318,35 @@ func TestF14_InterfaceSubtypeIgnored(t *testing.T) {
 		t.Fatalf("parameter I1:s was satisfied by an I1:t output (token %v)", res.Out(0))
 	}
 }
+
+// F15 (C03): an exactly matching named input loses against a same-named conversion chain
+// (negative name-affinity weights make the chain cheaper than the direct input).
+func TestF15_ExactNamedInputLosesToConversion(t *testing.T) {
+	f := am.MustFunc(am.NewFunc(func(in struct {
+		am.Struct
+		A T1
+	}) int {
+		return in.A.ID
+	}))
+	conv := func(in struct {
+		am.Struct
+		A T2
+	}) struct {
+		am.Struct
+		A T1
+	} {
+		return struct {
+			am.Struct
+			A T1
+		}{A: T1{99}}
+	}
+	for i := 0; i < 300; i++ {
+		res := f.Call(am.Named("a", T1{1}), am.NamedSubtype("a", T2{5}, "s1"), am.Converter(conv))
+		if err := res.Err(); err != nil {
+			t.Fatal(err)
+		}
+		if res.Out(0).(int) != 1 {
+			t.Fatalf("iteration %d: parameter a:T1 has an exactly matching input but received the converted value %v", i, res.Out(0))
+		}
+	}
+}
